@@ -52,6 +52,11 @@ def reset_ids(start=0):
     _uuid_n[0] = start
 
 
+# base name of the archive prefix (a check may choose one with characters that are special to
+# glob or shell, e.g. 'site[1]')
+PREFIX_NAME = ['out']
+
+
 def make_recorder(p, workdir):
     """p: dict(compress, digests, cdx, max_size, appending, log, extra, dedup)"""
     from wpull.warc.recorder import WARCRecorder, WARCRecorderParams
@@ -78,7 +83,7 @@ def make_recorder(p, workdir):
         url_table=url_table,
         software_string='Wpull/verif',
     )
-    info = {'workdir': workdir, 'prefix': os.path.join(workdir, 'out')}
+    info = {'workdir': workdir, 'prefix': os.path.join(workdir, PREFIX_NAME[0])}
     rec = WARCRecorder(info['prefix'], params=params)
     return rec, info
 
